@@ -16,14 +16,16 @@
 (*                                                                         *)
 (* This module is pure: abstract syntax, concrete syntax (parser and        *)
 (* renderer over sequences of one-character strings, TLA+ strings cannot be *)
-(* indexed), the token model and the matching relation.  The modules        *)
-(* TokenMatchGen and TokenMatchJudge bind it to the real code.              *)
+(* indexed), the token model and the matching relation.  TokenMatchGrammar   *)
+(* enumerates patterns from the grammar, TokenMatchPatterns writes them out, *)
+(* TokenMatchGen derives the covering token lists and checks the laws,       *)
+(* TokenMatchJudge compares the observations of the real code with Match.    *)
 (*                                                                         *)
 (* Where the documentation does not say what happens the parser REJECTS     *)
 (* the pattern (ok = FALSE) and nothing is claimed about it: a literal "|"  *)
 (* inside an element ("||", "|=", "|a", "a||b"), "!!" followed by nothing,  *)
-(* by alternatives or by a command, "[" ... "]" forms other than a plain    *)
-(* set, unknown %commands%.                                                 *)
+(* by alternatives or by a command, words that start with "[" and contain   *)
+(* "]" without being "[...]", unknown %commands%.                           *)
 (***************************************************************************)
 EXTENDS Integers, Sequences, FiniteSets, TLC
 
